@@ -184,6 +184,9 @@ struct TreeWorld : World {
     const Bytes &key(int a) const { int n = (int)keys.size(); return keys[((a % n) + n) % n]; }
     // representative spelling of a key: the first universe key equal to it under the ordering
     Bytes rep(const Bytes &k) const { cmp_fn f = order(); for (auto &u : keys) if (f(u.data(), u.size(), k.data(), k.size()) == 0) return u; return k; }
+    // Which spelling of a key the table keeps when an equal key is put again is not specified: keys returned by the table
+    // are compared up to equality under the ordering (only the case-folding ordering has distinct equal keys).
+    Bytes canon(const Bytes &k) const { return order() == cmp_fold ? rep(k) : k; }
     // class 6 = no value at all (NULL, 0): the table used as a set, as the library's own tests do
     Bytes value(const Op &op) const { if (((op.d >> 2) & 7) == 6) return Bytes(); return gen_value(op.b, op.c, (op.d >> 2) & 7); }
     Model *new_model() override { return new TreeModel(this, order()); }
@@ -240,7 +243,7 @@ struct TreeWorld : World {
             if (api == 0 && v.empty()) {
                 // replacing an existing value by "no value" is outside every statement: only issue it when the key has no value yet
                 void *cur; size_t cs; sim_fault_suspend(true); TCALL(x, cur = t->getobj(t, kb.p, kb.n, &cs, false)); sim_fault_suspend(false);
-                if (cur) return R_ok("skip");
+                if (cur && cs > 0) return R_ok("skip");
                 TCALL(x, ok = t->putobj(t, kb.p, kb.n, nullptr, 0));
             }
             else if (api == 0) TCALL(x, ok = t->putobj(t, kb.p, kb.n, vb.p, vb.n));
@@ -269,6 +272,7 @@ struct TreeWorld : World {
                     if (g_cmp_calls > bound) x.fail("lookup-cost", "struct", "lookup among " + num((long long)n) + " keys used " + num(g_cmp_calls) + " comparisons, bound " + num(bound));
                 }
             }
+            if (p && sz == 0) { if (newmem) free(p); p = nullptr; }     // a key stored without a value: NULL or an empty value, both mean "nothing"
             if (!p) return R_fail();
             Bytes got((const char *)p, sz);
             if (newmem) x.hold(p, got, "treetbl.get(newmem)");
@@ -290,7 +294,7 @@ struct TreeWorld : World {
             if (!p) return R_fail();
             Bytes got((const char *)p, n);
             x.hold(p, got, "treetbl.find_min/max");
-            return R_ok(encs(got));
+            return R_ok(encs(canon(got)));
         }
         case T_WALK: case T_LOCKEDWALK: {
             int m = op.k == T_WALK ? std::max(1, op.a) : 1; bool newmem = op.d & 1;
@@ -334,7 +338,7 @@ struct TreeWorld : World {
             }
             Bytes gk((const char *)o.name, o.namesize), gv;
             if (o.data) gv.assign((const char *)o.data, o.datasize);
-            Bytes out; enc(out, gk); enc(out, gv);
+            Bytes out; enc(out, canon(gk)); enc(out, gv);
             if (newmem) { x.hold(o.name, gk, "treetbl.find_nearest(newmem).name"); if (o.data) x.hold(o.data, gv, "treetbl.find_nearest(newmem).data"); }
             if (cont && !unfinished && !mt) {
                 // continue the traversal from the returned cursor: every key exactly once (order unspecified)
@@ -345,7 +349,7 @@ struct TreeWorld : World {
                     if (limit >= 0 && (int)seen.size() >= limit) { stopped = true; break; }
                     bool more; TCALL(x, more = t->getnext(t, &o, false));
                     if (!more) break;
-                    Bytes e; enc(e, Bytes((const char *)o.name, o.namesize)); enc(e, Bytes((const char *)o.data, o.datasize));
+                    Bytes e; enc(e, canon(Bytes((const char *)o.name, o.namesize))); enc(e, Bytes((const char *)o.data, o.datasize));
                     seen.push_back(e);
                     if (seen.size() > guard) { sut_abandon(); x.fail("walk-mismatch", "result", "traversal continued from find_nearest does not end (more elements than keys)"); }
                 }
@@ -425,7 +429,7 @@ struct TreeWorld : World {
             if (o.name) k.assign((const char *)o.name, o.namesize); else k = "(null-name)";
             if (o.data) v.assign((const char *)o.data, o.datasize); else if (o.datasize != 0 && !(sim_fault_fired() > 0)) v = "(null-data)";
             if (newmem) { if (o.name) x.hold(o.name, k, "treetbl.getnext(newmem).name"); if (o.data) x.hold(o.data, v, "treetbl.getnext(newmem).data"); }
-            enc(out, k); enc(out, v);
+            enc(out, o.name ? canon(k) : k); enc(out, v);
             if ((size_t)++cnt > guard) { sut_abandon(); x.fail("walk-mismatch", "result", "traversal does not end (more elements than keys)"); }
         }
         if (!walk_failed) unfinished = false;
@@ -442,7 +446,7 @@ struct TreeWorld : World {
             if (!seen.insert(k).second) continue;
             size_t sz = 0; void *p;
             { InSut s; p = t->getobj(t, k.data(), k.size(), &sz, false); }
-            if (p) found.push_back({k, Bytes((const char *)p, sz)});
+            if (p && sz > 0) found.push_back({k, Bytes((const char *)p, sz)});
         }
         std::sort(found.begin(), found.end(), [&](const std::pair<Bytes, Bytes> &a, const std::pair<Bytes, Bytes> &b) { return KeyLess{order()}(a.first, b.first); });
         // the model dumps the stored key bytes; under a folding order the stored spelling is the first inserted one.
@@ -539,16 +543,16 @@ Result TreeModel::apply(const Op &op) {
     }
     case T_CLEAR: m.clear(); return R_ok();
     case T_SIZE: return R_ok(num((long long)m.size()));
-    case T_MIN: if (m.empty()) return R_fail(); return R_ok(encs(m.begin()->first));
-    case T_MAX: if (m.empty()) return R_fail(); return R_ok(encs(m.rbegin()->first));
+    case T_MIN: if (m.empty()) return R_fail(); return R_ok(encs(w->canon(m.begin()->first)));
+    case T_MAX: if (m.empty()) return R_fail(); return R_ok(encs(w->canon(m.rbegin()->first)));
     case T_WALK: case T_LOCKEDWALK: {
-        Bytes o; for (auto &kv : m) { enc(o, kv.first); enc(o, kv.second); }
-        if (op.k == T_WALK) unfinished = false;
+        Bytes o; for (auto &kv : m) { enc(o, w->canon(kv.first)); enc(o, kv.second); }
+        unfinished = false;
         return R_ok(o + "$");
     }
     case T_ABANDON: {
         int j = std::max(1, op.a), c = 0; Bytes o;
-        for (auto &kv : m) { if (c >= j) break; enc(o, kv.first); enc(o, kv.second); c++; }
+        for (auto &kv : m) { if (c >= j) break; enc(o, w->canon(kv.first)); enc(o, kv.second); c++; }
         if ((int)m.size() >= j) { unfinished = true; return R_ok(o); }   // stopped by the client before the end was reported
         unfinished = false;
         return R_ok(o + "$");
@@ -560,7 +564,7 @@ Result TreeModel::apply(const Op &op) {
         TMap::iterator f;
         if (it == m.begin()) f = m.begin();    // no key <= probe: the smallest key
         else f = std::prev(it);
-        Bytes out; enc(out, f->first); enc(out, f->second);
+        Bytes out; enc(out, w->canon(f->first)); enc(out, f->second);
         bool cont = (op.d >> 1) & 1;
         if (cont && !unfinished && !w->mt) {
             if (op.c > 0 && (int)m.size() >= op.c) {
@@ -568,7 +572,7 @@ Result TreeModel::apply(const Op &op) {
                 unfinished = true; out += "|part";
             } else {
                 std::vector<Bytes> seen;
-                for (auto &kv : m) { Bytes e; enc(e, kv.first); enc(e, kv.second); seen.push_back(e); }
+                for (auto &kv : m) { Bytes e; enc(e, w->canon(kv.first)); enc(e, kv.second); seen.push_back(e); }
                 std::sort(seen.begin(), seen.end());
                 out += "|all:";
                 for (auto &e : seen) out += e;
